@@ -66,6 +66,7 @@ structure Sim where
   stuck : List (Nat × Nat) := []      -- (connection, k): the k oldest statements in flight on it are held back
   script : List Accept := []    -- what the node does with the next accepted connections (then: by source port)
   plain : Nat := 0              -- open futures that are immediate retries on the regular port
+  log : List (Ev VerifiedName) := []   -- every pool event issued (replayed through the cluster model by `sess` cases)
 
 def otherKs : VerifiedName := ⟨"zz_other", true⟩
 
@@ -102,7 +103,7 @@ def Sim.reply (s : Sim) (i : Nat) (k : VerifiedName) : Sim × Option (SrvReply V
         | r :: rs => if hit r then { r with spent := true } :: rs else r :: spend rs
       ({ s with rules := spend s.rules }, none)
 
-def Sim.ev (s : Sim) (e : Ev VerifiedName) : Sim := { s with pool := step s.pool e }
+def Sim.ev (s : Sim) (e : Ev VerifiedName) : Sim := { s with pool := step s.pool e, log := s.log ++ [e] }
 
 /-- The node answers the `USE` at position `pos` of connection `i`'s queue (0 = the oldest; a broken connection
 fails it). -/
@@ -147,9 +148,7 @@ def outcomeTok : Outcome → String
 /-- `use_keyspace(names[i])` awaited: the task writes its `USE` on every snapshot connection, the node answers
 what it does not hold back; if an answer is still missing, the pool's timeout answers the caller and the `USE`
 stays in flight (it is answered when the node releases it). -/
-def Sim.useKs (s : Sim) (k : VerifiedName) : Sim × String :=
-  let tid := s.pool.tasks.length
-  let s := s.ev (.useKs k)
+def Sim.runTask (s : Sim) (tid : Nat) : Sim × String :=
   match findTask s.pool.tasks tid with
   | none => (s, "MODEL-BUG")
   | some t =>
@@ -161,7 +160,8 @@ def Sim.useKs (s : Sim) (k : VerifiedName) : Sim × String :=
     match findTask s.pool.tasks tid with
     | none => (s, "MODEL-BUG")
     | some t =>
-      if !t.allDone then
+      if t.resp.isSome then (s, match t.resp with | some o => outcomeTok o | none => "MODEL-STUCK")
+      else if !t.allDone then
         let s := s.ev (.taskTimeout tid)
         (s, "e:RequestTimeout")
       else
@@ -169,6 +169,10 @@ def Sim.useKs (s : Sim) (k : VerifiedName) : Sim × String :=
         match findTask s.pool.tasks tid with
         | some t => (s, match t.resp with | some o => outcomeTok o | none => "MODEL-STUCK")
         | none => (s, "MODEL-BUG")
+
+def Sim.useKs (s : Sim) (k : VerifiedName) : Sim × String :=
+  let tid := s.pool.tasks.length
+  (s.ev (.useKs k)).runTask tid
 
 def Sim.connErrors (s : Sim) : Sim :=
   let broken := (s.pool.conns ++ s.pool.excess).filter fun i => (s.pool.net i).broken
@@ -255,18 +259,28 @@ def Sim.quiesce : Nat → Sim → Sim
     else if !s.pool.needFilling then s
     else Sim.quiesce rounds (s.ev .refill)
 
-def Sim.liveKs (s : Sim) (shard : Option Nat) : List String :=
-  (s.pool.conns.filter fun i => !(s.pool.net i).broken && (shard.isNone || shard == some (s.pool.net i).shard)).map
-    fun i => match (s.pool.net i).serverKs with
-      | some v => srvName v
-      | none => "-"
+/-- `q<keyspace at arrival>@<shard of the connection>` for a connection. -/
+def Sim.qTok (s : Sim) (i : Nat) : String :=
+  let ks := match (s.pool.net i).serverKs with
+    | some v => srvName v
+    | none => "-"
+  let sh := if s.sharded then toString (s.pool.net i).shard else "-"
+  "q" ++ ks ++ "@" ++ sh
 
+/-- A query for `shard`: the implementation's answer must be what one of the connections the MODEL can hand
+out (`Pool.handable`: the shard's own bucket when it has a connection, else any published one) would give. -/
 def Sim.query (s : Sim) (shard : Nat) (implTok : String) : String :=
-  let exact := if s.sharded then s.liveKs (some shard) else []
-  let cands := if exact.isEmpty then s.liveKs none else exact
-  if cands.isEmpty then "q!"
-  else if cands.any (fun k => "q" ++ k == implTok) then implTok
-  else "q" ++ cands.headD "?" ++ "(model)"
+  -- the refiller may or may not have handled the error event of a connection that has just broken: both the
+  -- state before and after `connError` are legitimate
+  let before := s.pool.handable shard
+  let after := ((List.foldl (fun p i => step p (.connError i)) s.pool
+    ((s.pool.conns ++ s.pool.excess).filter fun i => (s.pool.net i).broken)).handable shard).filter
+      fun i => !(s.pool.net i).broken
+  let live := (before.filter fun i => !(s.pool.net i).broken) ++ after
+  if implTok == "q!" && (live.isEmpty || before.any fun i => (s.pool.net i).broken) then implTok
+  else if live.any (fun i => s.qTok i == implTok) then implTok
+  else if live.isEmpty then "q!"
+  else (live.head?.map s.qTok).getD "q?" ++ "(model)"
 
 /-- Connections the driver still holds (published, excess, or having their keyspace set) and that are not
 broken: the others were dropped (excess cleared, reshard, requested-shard miss), i.e. closed. -/
@@ -453,6 +467,128 @@ def runPool (mode init names script impl : String) : String :=
       | none => "bad-case"
   | _, _ => "bad-case"
 
+
+/-! ### `sess` scripts: the SESSION model (`sstep`: calls, the worker's fan-out, deliveries, every node's pool) run
+to quiescence after every client step; the pool events of a node are produced by the per-node simulation above and
+replayed through the cluster model -/
+
+structure CSim where
+  ss : Session
+  names : List (String × Bool)
+  rules : List (Nat × Option Nat)      -- (name index, node or all): the node answers that `USE` with an error
+
+def CSim.nodeSim (c : CSim) (n : Nat) : Sim :=
+  { pool := c.ss.cluster.pools n, names := c.names, sharded := false, n := 1, holdNew := false, held := [],
+    rules := (c.rules.filter fun r => r.2.isNone || r.2 == some n).map fun r =>
+      { idx := r.1, shard := none, kind := .reject, spent := false } }
+
+/-- Run a per-node simulation step and replay its pool events through the session model. -/
+def CSim.onNode (c : CSim) (n : Nat) (f : Sim → Sim) : CSim :=
+  let s := f (c.nodeSim n)
+  { c with ss := s.log.foldl (fun ss e => sstep ss (.cluster (.pool n e))) c.ss }
+
+def CSim.cl (c : CSim) (e : CEv VerifiedName) : CSim := { c with ss := sstep c.ss (.cluster e) }
+
+def CSim.useKs (c : CSim) (i : Nat) : Option (CSim × String) :=
+  match c.names[i]? with
+  | none => none
+  | some (nm, cs) =>
+    let c := { c with ss := sstep c.ss (.call nm cs) }
+    match c.ss.calls.head?.map (·.outcome) with
+    | some (CallOutcome.rejected _) => some (c, "e:BadKeyspaceName")
+    | some (CallOutcome.fanout fid) =>
+      match c.ss.cluster.fanouts.find? (·.id = fid) with
+      | none => some (c, "MODEL-BUG")
+      | some f =>
+        let c := f.nodes.foldl (fun c n =>
+          let c := c.cl (.deliver fid n)
+          let tid := (c.ss.cluster.pools n).tasks.length - 1
+          c.onNode n fun s => (s.runTask tid).1) c
+        let c := c.cl (.fanoutFinish fid)
+        let tok := match (c.ss.cluster.fanouts.find? (·.id = fid)).bind (·.resp) with
+          | some o => outcomeTok o
+          | none => "MODEL-STUCK"
+        some (c, tok)
+    | none => some (c, "MODEL-BUG")
+
+def CSim.nodeRow (c : CSim) (n : Nat) : String :=
+  let s := c.nodeSim n
+  let rows := (List.range s.pool.nextId).filter s.alive |>.map fun i =>
+    ">".intercalate ((s.pool.net i).acked.map srvName)
+  let sorted := rows.toArray.qsort (· < ·) |>.toList
+  s!"n{n}:" ++ ",".intercalate sorted
+
+def CSim.queryToks (c : CSim) : List String :=
+  c.ss.cluster.known.flatMap fun n =>
+    let p := c.ss.cluster.pools n
+    ((p.handable 0).filter fun i => !(p.net i).broken).map fun i =>
+      "q" ++ (match (p.net i).serverKs with | some v => srvName v | none => "-") ++ s!"@{n}"
+
+def CSim.steps : List String → List String → CSim → List String → Option (List String)
+  | [], _, _, acc => some acc.reverse
+  | st :: rest, impl, c, acc =>
+    let op := (st.take 1).toString
+    let arg := (st.drop 1).toString
+    let tok := impl.headD ""
+    match op with
+    | "U" =>
+      match arg.toNat? with
+      | none => none
+      | some i =>
+        match c.useKs i with
+        | none => none
+        | some (c, t) => CSim.steps rest (impl.drop 1) c (t :: acc)
+    | "R" =>
+      match arg.splitOn "," with
+      | [i, who] =>
+        match i.toNat?, (if who == "*" then some none else who.toNat?.map some) with
+        | some i, some node => CSim.steps rest impl { c with rules := c.rules ++ [(i, node)] } acc
+        | _, _ => none
+      | _ => none
+    | "X" => CSim.steps rest impl { c with rules := [] } acc
+    | "K" =>
+      match arg.toNat? with
+      | none => none
+      | some n =>
+        if n ≥ c.ss.cluster.nNodes then none
+        else
+          let c := c.onNode n fun s => s.pool.conns.foldl (fun s i => s.ev (.breakConn i)) s
+          CSim.steps rest (impl.drop 1) c ("k" :: acc)
+    | "W" =>
+      let c := c.ss.cluster.known.foldl (fun c n => c.onNode n fun s => s.quiesce 8) c
+      let full := c.ss.cluster.known.all fun n => (c.ss.cluster.pools n).isFull
+      CSim.steps rest (impl.drop 1) c ((if full then "w1" else "w0") :: acc)
+    | "A" =>
+      let n := c.ss.cluster.nNodes
+      let c := c.cl (.addNode true 1)
+      let c := c.onNode n fun s => s.quiesce 8
+      CSim.steps rest (impl.drop 1) c (s!"a{c.ss.cluster.known.length}" :: acc)
+    | "Q" =>
+      match arg.toNat? with
+      | none => none
+      | some k =>
+        let cands := c.queryToks
+        let subs := tok.splitOn ","
+        let okAll := subs.length == min k 16 && subs.all fun t => if cands.isEmpty then t == "q!" else cands.contains t
+        let t := if okAll then tok else ",".intercalate (List.replicate (min k 16) (cands.headD "q!")) ++ "(model)"
+        CSim.steps rest (impl.drop 1) c (t :: acc)
+    | "L" =>
+      let rows := (List.range c.ss.cluster.nNodes).map c.nodeRow
+      CSim.steps rest (impl.drop 1) c (("l[" ++ "|".intercalate rows ++ "]") :: acc)
+    | _ => none
+
+def runSess (n names script impl : String) : String :=
+  match n.toNat?, parseNames names with
+  | some n, some names =>
+    if n < 1 ∨ n > 4 then "bad-case"
+    else
+      let c0 : CSim := { ss := Session.init true 1, names, rules := [] }
+      let c := (List.range n).foldl (fun c _ => c.cl (.addNode true 1)) c0
+      match CSim.steps ((script.splitOn ";").filter (· ≠ "")) (impl.splitOn ";") c [] with
+      | some toks => ";".intercalate toks
+      | none => "bad-case"
+  | _, _ => "bad-case"
+
 def run (case impl : String) : String :=
   match words case with
   | ["name", h, cs] =>
@@ -482,6 +618,8 @@ def run (case impl : String) : String :=
           | .error e => "err " ++ useErrLabel e
     | _, _, _ => "bad-case"
   | ["pool", mode, init, names, script] => runPool mode init names script impl.trimAscii.toString
+  | ["sess", n, names, script] =>
+    if impl.trimAscii.toString == "sess-skip" then "sess-skip" else runSess n names script impl.trimAscii.toString
   | ["race", mode, init, names, script] =>
     -- judged by the oracle at the node only; the model checks that the case is well-formed
     match parseMode mode, parseNames names with
